@@ -1,5 +1,5 @@
 from .. import facts
-from ..rules import tables, status
+from ..rules import tables, status, factors, codec
 
 
 def run(ck):
@@ -11,3 +11,5 @@ def run(ck):
     tables.r3_layouts(ck, P)
     tables.r4_cache_key(ck, P)
     status.r5_blt_fill(ck, P)
+    factors.r9_simd_combiners(ck, P)
+    codec.r8_scalar_helpers(ck, P)
